@@ -730,6 +730,12 @@ func c16PickS(r *verifkit.Rand, xs ...string) string { return xs[r.Intn(len(xs))
 func TestVerifC16(t *testing.T) {
 	out := verifkit.Open()
 	defer out.Close()
+	defer func() {
+		// the run is under -race: every report of the detector is a failure of "for any … scheduling" with a concrete pair of accesses
+		for _, r := range verifkit.RaceReports() {
+			out.Fail("data-race "+r, "the race detector reported unsynchronised accesses (see the key); the run used -race with GORACE=log_path")
+		}
+	}()
 	r := verifkit.NewRand(verifkit.Seed())
 	n := verifkit.N(300, 2500)
 	// fixed boundary scenarios first
@@ -747,6 +753,10 @@ func TestVerifC16(t *testing.T) {
 		{id: "c1", target: -1, size0: 50, batch: 5, par: 3, nMatch: 1, seed: 21, failFrom: 20, stopAt: 2 * time.Minute, cancelAt: 30 * time.Minute},
 		{id: "c2", target: -1, scan: true, size0: 60, batch: 8, par: 2, nMatch: 2, buf: 1, seed: 22, failFrom: 17, cancelAt: 3 * time.Minute, matcher: MatchAll{}, mName: "all"},
 		{id: "c3", target: -1, size0: 9, batch: 2, par: 2, nMatch: 1, seed: 23, failFrom: 30, cont: true, growth: []c16Growth{{20 * time.Second, 40}}, stopAt: 4 * time.Minute, cancelAt: 25 * time.Minute},
+		// continuous scan, the only fetcher is stuck on a dead back end, the generator (at the end of the range) accepts a bigger STH
+		// and then waits to hand out the next range; cancellation ends both. ScanLog then reads the end index the generator wrote.
+		{id: "r0", target: -1, scan: true, size0: 6, batch: 3, par: 1, nMatch: 1, seed: 24, failFrom: 3, cont: true, growth: []c16Growth{{30 * time.Second, 40}}, cancelAt: 10 * time.Minute, matcher: MatchAll{}, mName: "all"},
+		{id: "r1", target: -1, size0: 6, batch: 3, par: 1, nMatch: 1, seed: 25, failFrom: 3, cont: true, growth: []c16Growth{{30 * time.Second, 40}}, cancelAt: 10 * time.Minute},
 		{id: "b8", target: -1, scan: true, size0: 90, batch: 1000, par: 1, nMatch: 3, buf: 1000, seed: 9, matcher: CertParseFailMatcher{}, mName: "parsefail", preOnly: true},
 	}
 	for _, p := range fixed {
